@@ -25,7 +25,7 @@ import (
 )
 
 // fixedWorld: god a0 plus n-1 further Verified identities with stake and balance, no ceremony in reach.
-func fixedWorld(t *testing.T, n int) (*sim.World, *sim.Replica, *sim.Replica) {
+func fixedWorld(t testing.TB, n int) (*sim.World, *sim.Replica, *sim.Replica) {
 	p := sim.Params{KeySeed: 12, NActors: n, Profile: "v12", SwitchRng: 3, DelegRng: 2, DiscrRng: 3, SnapRng: 1000,
 		Start: time.Date(2030, 1, 5, 12, 0, 0, 0, time.UTC).Unix(), CeremonyIn: 100000, Interval: 3600, LotteryDur: 30, ShortDur: 30, LongDur: 30}
 	for i := 0; i < n; i++ {
@@ -46,7 +46,7 @@ func fixedWorld(t *testing.T, n int) (*sim.World, *sim.Replica, *sim.Replica) {
 	return w, a, b
 }
 
-func reencode(t *testing.T, b *types.Block) *types.Block {
+func reencode(t testing.TB, b *types.Block) *types.Block {
 	data, err := b.ToBytes()
 	if err != nil {
 		t.Fatal(err)
@@ -269,5 +269,55 @@ func TestRegressionFastSyncDiffWithoutValue(t *testing.T) {
 	mustNotPanic(t, "fastSync.applyDeferredBlocks(diff entry without value)", func() { _, err = fs.VerifC12ApplyDeferredBlocks() })
 	if err == nil {
 		t.Fatalf("a diff that does not lead to the header's identity root was accepted")
+	}
+}
+
+// Found by reading while building TestFrames, confirmed here: the BlocksRange arm
+// of IdenaGossipHandler.handle pushes every element of the message into the
+// channel of the request it answers (`batch.headers <- b`). The channel holds
+// to-from+1 elements (100 for a fork request) and its consumer stops reading
+// after that many. A peer that answers with more elements than were asked for
+// blocks its own reader goroutine for good: runListening never returns, the peer
+// is never unregistered (it keeps its slot in the peer set and in the connection
+// manager after the remote side has gone), the goroutine is never released.
+// handle returns in microseconds when it terminates; 20 s is the limit.
+func TestRegressionRangeLongerThanRequested(t *testing.T) {
+	w, a, b := fixedWorld(t, 3)
+	var blocks []*types.Block
+	for i := 0; i < 3; i++ {
+		blk := a.Propose().Block
+		if err := a.AddBlock(blk); err != nil {
+			t.Fatalf("setup: %v", err)
+		}
+		blocks = append(blocks, blk)
+		w.Advance(20 * time.Second)
+	}
+	g := newGossipNode(b)
+	pr, stream := g.newPeer("serving-peer")
+	if err := g.h.VerifC12Register(pr); err != nil {
+		t.Fatal(err)
+	}
+	// the node asks for exactly one block ...
+	batch, err := g.h.GetBlocksRange(pr.VerifC12PeerID(), 1, 1)
+	if err != nil {
+		t.Fatal(err)
+	}
+	// ... and the peer answers with three
+	r := &protocol.VerifBlockRange{BatchId: protocol.VerifC12LastBatchId()}
+	for _, blk := range blocks {
+		r.Blocks = append(r.Blocks, protocol.VerifC12NewRangeItem(blk.Header, nil, nil))
+	}
+	payload, _ := r.ToBytes()
+	msg, _ := (&protocol.Msg{Code: protocol.BlocksRange, Payload: payload}).ToBytes()
+	stream.feed(protocol.Encode(protocol.BlocksRange, msg))
+	evid.Eval()
+	var herr error
+	if !returnsWithin(20*time.Second, func() { herr = g.h.VerifC12Handle(pr) }) {
+		t.Fatalf("IdenaGossipHandler.handle does not return for a BlocksRange message with 3 elements answering a request for 1 (blocked sending into the request's channel)")
+	}
+	items, _ := batch.VerifC12Delivered()
+	t.Logf("handle returned %v; %d element(s) delivered to the request", herr, len(items))
+	if len(items) > 1 {
+		t.Fatalf("%d elements delivered to a request for 1", len(items))
 	}
 }
